@@ -39,9 +39,15 @@ pub enum EstComp {
     CtxPrependZero,
     /// the SHA3-256 digest of the input used as the input
     CtxDigestOfInput,
+    /// the merchant key with a single public element moved
+    KeyElement,
 }
-const EST_COMPS: [EstComp; 15] = [
+const EST_COMPS: [EstComp; 19] = [
     EstComp::Key,
+    EstComp::KeyElement,
+    EstComp::KeyElement,
+    EstComp::KeyElement,
+    EstComp::KeyElement,
     EstComp::CidBit,
     EstComp::CidFresh,
     EstComp::CbPlus1,
@@ -73,9 +79,17 @@ pub enum PayComp {
     CtxFresh,
     CtxAppendZeros,
     CtxDigestOfInput,
+    /// one public element of the signing key / the revocation parameters / the range key moved
+    KeyElement,
+    RevElement,
+    RangeKeyElement,
 }
-const PAY_COMPS: [PayComp; 13] = [
+const PAY_COMPS: [PayComp; 17] = [
     PayComp::Key,
+    PayComp::KeyElement,
+    PayComp::KeyElement,
+    PayComp::RevElement,
+    PayComp::RangeKeyElement,
     PayComp::RangeParams,
     PayComp::RevParams,
     PayComp::NonceFresh,
@@ -102,8 +116,8 @@ fn strategy(t: Tier) -> impl Strategy<Value = Case> {
     let est_seeds = t.pick(40u64, 400);
     let pay_seeds = t.pick(6u64, 60);
     prop_oneof![
-        16 => (0..est_seeds, 0u8..15, any::<u64>()).prop_map(|(seed, comp, r)| Case::Establish { seed, comp, r }),
-        5 => (0..pay_seeds, 0u8..13, any::<u64>()).prop_map(|(seed, comp, r)| Case::Pay { seed, comp, r }),
+        16 => (0..est_seeds, 0u8..19, any::<u64>()).prop_map(|(seed, comp, r)| Case::Establish { seed, comp, r }),
+        5 => (0..pay_seeds, 0u8..17, any::<u64>()).prop_map(|(seed, comp, r)| Case::Pay { seed, comp, r }),
         8 => (0u8..4, 0u8..4, 0u8..5).prop_map(|(from, to, what)| Case::Replay { from, to, what }),
         50 => (0u8..4, 0u8..4, 0u8..4, 0u8..4, 0u8..3, any::<u64>()).prop_map(|(sess, other, stage, field, how, r)| Case::Closing { sess, other, stage, field, how, r }),
     ]
@@ -200,7 +214,7 @@ fn oracle(c: &Case, rec: &Rec) -> R {
     match c {
         Case::Establish { seed, comp, r } => {
             let h = honest(*seed);
-            let comp = EST_COMPS[*comp as usize % 15];
+            let comp = EST_COMPS[*comp as usize % 19];
             let ctx0 = Context::new(&h.ctx_input);
             let run = |m: &proto::Merchant, cid: &ChannelId, cb: u64, mb: u64, ctx: &Context| -> bool {
                 let p: EstablishProof = wire::dec(&h.est_img.bytes).unwrap();
@@ -211,6 +225,13 @@ fn oracle(c: &Case, rec: &Rec) -> R {
             let (mut m, mut cb, mut mb, mut input) = (h.m.clone(), h.cb, h.mb, h.ctx_input.clone());
             match comp {
                 EstComp::Key => m = proto::merchant(h.m.seed + 1),
+                EstComp::KeyElement => match proto::merchant_element_variant(h.m.seed, 0, *r) {
+                    Some(v) => m = v,
+                    None => {
+                        rec.class("substitution-not-constructible/establish-key-element");
+                        return Ok(());
+                    }
+                },
                 EstComp::CidBit => cidb[(*r % 31) as usize] ^= 1 << ((*r >> 8) % 8),
                 EstComp::CidFresh => cidb = crate::engine::refmath::sha3(&[&r.to_le_bytes()]),
                 EstComp::CbPlus1 => cb += 1,
@@ -242,7 +263,7 @@ fn oracle(c: &Case, rec: &Rec) -> R {
         }
         Case::Pay { seed, comp, r } => {
             let h = honest(*seed);
-            let comp = PAY_COMPS[*comp as usize % 13];
+            let comp = PAY_COMPS[*comp as usize % 17];
             let ctx0 = Context::new(&h.ctx_input);
             let run = |m: &proto::Merchant, amt: i64, nonce: &[u8], ctx: &Context| -> Option<bool> {
                 let p: PayProof = wire::dec(&h.pay_img.bytes).unwrap();
@@ -253,6 +274,20 @@ fn oracle(c: &Case, rec: &Rec) -> R {
             let (mut m, mut amt, mut nonce, mut input) = (h.m.clone(), h.amt, h.nonce_bytes.clone(), h.ctx_input.clone());
             match comp {
                 PayComp::Key => m = proto::merchant_variant(h.m.seed, 0),
+                PayComp::KeyElement | PayComp::RevElement | PayComp::RangeKeyElement => {
+                    let part = match comp {
+                        PayComp::KeyElement => 0,
+                        PayComp::RevElement => 1,
+                        _ => 2,
+                    };
+                    match proto::merchant_element_variant(h.m.seed, part, *r) {
+                        Some(v) => m = v,
+                        None => {
+                            rec.class(&format!("substitution-not-constructible/{:?}", comp));
+                            return Ok(());
+                        }
+                    }
+                }
                 PayComp::RevParams => m = proto::merchant_variant(h.m.seed, 1),
                 PayComp::RangeParams => m = proto::merchant_variant(h.m.seed, 2),
                 PayComp::NonceFresh => nonce = rand_scalar(*r).to_bytes().to_vec(),
@@ -376,7 +411,7 @@ fn oracle(c: &Case, rec: &Rec) -> R {
 pub fn checks() -> Vec<CheckDef> {
     vec![prop_check(
         "single-component-substitution",
-        "generated substitutions on accepted originals: establish tuple (key, channel id [one bit / fresh], customer and merchant balance [+1, -1, fresh], context [one byte changed, one byte longer, fresh]); pay tuple (key, range parameters, revocation parameters [merchants built with from_parts differing in exactly one part], nonce [fresh, +1], amount [+1, -1, negated, 0], context [byte, fresh]); replay of recorded establish proofs, closing signatures and pay tokens (establish and pay phase) between 4 sessions on 2 merchants; closing messages from Inactive/Ready/Started/Locked with channel id, lock, merchant balance or customer balance replaced by the value of another state/channel, a near value or a fresh value; oracle (metamorphic): the original is accepted and every substituted variant is rejected / refused / fails the close check; distinct by case",
+        "generated substitutions on accepted originals: establish tuple (key [fresh key, one public element of the key moved], channel id [one bit / fresh], customer and merchant balance [+1, -1, fresh], context [one byte changed, one byte longer, fresh]); pay tuple (key, range parameters, revocation parameters [merchants built with from_parts differing in exactly one part, or in exactly one group element of the key / the revocation parameters / the range key], nonce [fresh, +1], amount [+1, -1, negated, 0], context [byte, fresh]); replay of recorded establish proofs, closing signatures and pay tokens (establish and pay phase) between 4 sessions on 2 merchants; closing messages from Inactive/Ready/Started/Locked with channel id, lock, merchant balance or customer balance replaced by the value of another state/channel, a near value or a fresh value; oracle (metamorphic): the original is accepted and every substituted variant is rejected / refused / fails the close check; distinct by case",
         &["establish/Key", "establish/CtxByte", "pay/RevParams", "pay/AmountNegated", "replay/pay-token(pay)/other-channel", "closing/started/revocation_lock"],
         (2100, 150_000),
         strategy,
